@@ -148,8 +148,12 @@ func c14RunRaw(cs c14Case) (fs []F) {
 		} else if got.Tok() != st.cells[off+pos] {
 			fail("sample", "Sample(%d) reads %d, want the parent's sample %d of channel %d = %d", i, got.Tok(), i, cs.Chan, st.cells[off+pos])
 		}
-		if g := ch.BufferIndex(cs.Chan, i); g != pos {
-			fail("bufferindex", "BufferIndex(%d,%d) = %d, want %d", cs.Chan, i, g, pos)
+		// (the view is bound to its channel: whatever channel number is passed, the position is that of (c, i))
+		for _, arg := range []int{cs.Chan, 0, cs.C - 1, (cs.Chan + 1) % cs.C} {
+			if g := ch.BufferIndex(arg, i); g != pos {
+				fail("bufferindex", "view.BufferIndex(%d,%d) = %d, want %d: the interleaved position of sample %d of the view's own channel %d", arg, i, g, pos, i, cs.Chan)
+				break
+			}
 		}
 		if p, msg := dyn.Try(func() { ch.SetSample(i, dyn.Tok(t, tok)) }); p {
 			fail("set-panic", "SetSample(%d) panicked: %s", i, msg)
